@@ -28,14 +28,14 @@ IsEv(k) == l <= Len(Traces[tid].ev) /\ Ev.k = k /\ l' = l + 1 /\ UNCHANGED tid
 
 (* CVodeInit(cv_mem_, Fex, t0, cv_y_): origin 0, state = the caller's *)
 TCVodeInit ==
-  /\ IsEv("Init")
+  /\ IsEv("Init") /\ pc \notin {"handle", "enter"}      \* (silent model steps pending: let them run first)
   /\ Chk("InitOnlyAtStart", pc = "call0")
   /\ Chk("InitOriginZero", Ev.t0 = 0)
   /\ Chk("InitStateIsCallers", Ev.tau = 0)
   /\ UNCHANGED vars
 
 TCVode ==
-  /\ IsEv("CVode")
+  /\ IsEv("CVode") /\ pc \notin {"handle", "enter"}
   /\ Chk("CVodeOnlyWhenModelCalls", pc \in {"call0", "sub"})
   /\ Chk("FailureTimeExact", Ev.flag < 0 => Ev.tretint)
   /\ IF pc = "call0"
@@ -49,14 +49,14 @@ TCVode ==
   /\ Chk("IntegratedTime", Ev.tauint => tau' = Ev.tau)
 
 TReInit ==
-  /\ IsEv("ReInit")
+  /\ IsEv("ReInit") /\ pc \notin {"handle", "enter"}
   /\ Chk("ReInitOnlyWhenModelReinits", pc = "reinit")
   /\ Chk("ReInitOriginZero", Ev.t0 = 0)
   /\ Chk("ReInitState", Ev.tauint /\ Ev.tau = tmp)
   /\ ReInit(Ev.flag >= 0)
 
 TReturn ==
-  /\ IsEv("Return")
+  /\ IsEv("Return") /\ pc \notin {"handle", "enter"}
   /\ Chk("ReturnOnlyWhenModelReturns", pc = "ret")
   /\ Chk("ReturnValue", ret = Ev.ret)
   /\ Chk("ExactSpanObserved", Ev.ret = "SUCCESS" => (Ev.tauint /\ Ev.tau = T))
